@@ -11,10 +11,10 @@ let parse_op (s : string) : op option =
   let rest = String.sub s 1 (String.length s - 1) in
   let a = ints rest in
   match s.[0], a with
-  | 'A', vs -> Some (ONewSeq (KArray, vs))
-  | 'L', vs -> Some (ONewSeq (KList, vs))
-  | 'T', vs -> Some (ONewMap (KTable, pairs vs))
-  | 'R', vs -> Some (ONewMap (KTree, pairs vs))
+  | ('A' | 'E'), vs -> Some (ONewSeq (KArray, vs))     (* E F G H: other element types, same semantics *)
+  | ('L' | 'F'), vs -> Some (ONewSeq (KList, vs))
+  | ('T' | 'G'), vs -> Some (ONewMap (KTable, pairs vs))
+  | ('R' | 'H'), vs -> Some (ONewMap (KTree, pairs vs))
   | 'B', [v] -> Some (ONewBox v)
   | 'p', [c; v] -> Some (OPush (nat_of_z c, v))
   | 'o', [c] -> Some (OPop (nat_of_z c))
